@@ -1,3 +1,4 @@
+#![allow(dead_code, unused_imports, unused_variables)]
 #[path = "../../../shared/corpus.rs"]
 mod corpus;
 mod poll;
